@@ -1,15 +1,27 @@
 #!/bin/bash
-# Build everything the checks need, offline, from files on disk.
+# Build everything the checks need, offline, from files on disk only.
+# (Checks rebuild what depends on /repo themselves; this only warms the caches.)
 set -e
 cd "$(dirname "$0")"
 export CARGO_NET_OFFLINE=true
-mkdir -p .work
-# warm one Kani target dir per worker (dependencies compile once per dir)
+mkdir -p .work evidence
+rsync -a --delete --exclude target kani/ .work/src_k/
+# one Kani target dir per worker: dependencies compile once per dir
 for i in $(seq 0 15); do
-  ( cd kani && RUSTFLAGS="--cfg rva_verif" cargo kani --target-dir ../.work/k$i --harness ob_fold::proofs::fold_and --exact > ../.work/setup.k$i.log 2>&1 || true ) &
+  ( cd .work/src_k && RUSTFLAGS="--cfg rva_verif" cargo kani --target-dir ../k$i --harness ob_fold::proofs::fold_and --exact > ../setup.k$i.log 2>&1 || true ) &
 done
+# native helpers (replay of counterexamples, E2/E3 companions), dev and release
+( cd kani && RUSTFLAGS="--cfg rva_verif" cargo build --bins --target-dir ../.work/native > ../.work/setup.native.log 2>&1 \
+  && RUSTFLAGS="--cfg rva_verif" cargo build --release --bins --target-dir ../.work/native >> ../.work/setup.native.log 2>&1 ) &
 wait
-( cd kani && RUSTFLAGS="--cfg rva_verif" cargo build --bin replay --target-dir ../.work/native > ../.work/setup.native.log 2>&1 )
-( cd kani && RUSTFLAGS="--cfg rva_verif" cargo build --release --bin replay --target-dir ../.work/native >> ../.work/setup.native.log 2>&1 )
-grep -l "VERIFICATION:- SUCCESSFUL" .work/setup.k*.log | wc -l
+# MIR dumps for E2 need the nightly toolchain's build of the dependencies
+python3 - <<'PY' || true
+import sys
+sys.path.insert(0, "mir2smt")
+import e2
+for p in ("dev", "release"):
+    e2.dump_mir(p)
+PY
+echo "kani workers warmed: $(grep -l 'VERIFICATION:- SUCCESSFUL' .work/setup.k*.log | wc -l)/16"
+test -x .work/native/debug/replay && test -x .work/native/release/replay && echo "native helpers built"
 echo setup done
